@@ -1698,14 +1698,14 @@ def check(run):
                     rule='for each of the %d names of PROPERTIES and EXPANDERS: which of ~1300 candidate values (generic '
                          'single tokens, idents quoted in its validator, the strings of tests/css/test_validation.py and '
                          'test_expanders.py) the implementation accepts' % len(gr.names))
-    streams = [('pp', cases_pp(rng, gr, 30000 if thorough else 2600)),
-               ('dispatch', cases_dispatch(rng, gr, 50000 if thorough else 4000)),
+    streams = [('pp', cases_pp(rng, gr, 24000 if thorough else 2600)),
+               ('dispatch', cases_dispatch(rng, gr, 40000 if thorough else 4000)),
                ('units', cases_units(rng, 4000 if thorough else 300)),
                ('var', cases_var(run, rng, 20000 if thorough else 1500)),
-               ('render', cases_render(rng, gr, 8000 if thorough else 500)),
+               ('render', cases_render(rng, gr, 6000 if thorough else 500)),
                ('probes', cases_probes()),
                ('pending', cases_pending(rng, 6000 if thorough else 700)),
-               ('shared', cases_shared(rng, 1500 if thorough else 130))]
+               ('shared', cases_shared(rng, 1000 if thorough else 130))]
     allc = [c for _, cs in streams for c in cs]
     outs = run_multi(allc, limit=240)
     res, k = {}, 0
